@@ -227,7 +227,8 @@ def evalE {σ : Type} (P : Prims σ) (env : Env) (w : σ) : Expr → Option (Val
     | some (.list vs, w') => some (.int vs.length, w')
     | some (.nil, w') => some (.int 0, w')
     | some (.tuple (.str "$map" :: ps), w') => some (.int ps.length, w')     -- a Go map given as its entries (see `.range`)
-    | _ => none
+    | some (v, w') => P.fn "len" [v] w'          -- the length of an OBJECT (a map or slice behind a reference): a primitive
+    | none => none
   | .call f args =>
     match evalEs P env w args with
     | some (vs, w') => P.fn f vs w'
